@@ -163,7 +163,7 @@ def build_driver():
             shutil.copy(os.path.join(COQ, f), d)
         for f in srcs:
             shutil.copy(os.path.join(DRIVER_SRC, f), d)
-        rest = sorted([f for f in srcs if f not in ("sexp.ml", "conv.ml", "main.ml")], key=lambda f: ({"litcmd.ml": 0, "corecmd.ml": 1}.get(f, 2), f))
+        rest = sorted([f for f in srcs if f not in ("sexp.ml", "conv.ml", "main.ml")], key=lambda f: ({"litcmd.ml": 0, "corecmd.ml": 1, "frontcmd.ml": 3}.get(f, 2), f))
         order = ["model.mli", "model.ml", "sexp.ml", "conv.ml"] + rest + ["main.ml"]
         p = run(["ocamlfind", "ocamlopt", "-O3", "-w", "-a", "-package", "str"] + order + ["-o", "svd"], cwd=d, check=False)
         if p.returncode != 0:
